@@ -323,6 +323,7 @@ type TxSpec struct {
 	Contract string            `json:"contract,omitempty"`
 	ConAmt   int64             `json:"conamt,omitempty"` // amount transferred to the contract with the call
 	Desc     string            `json:"desc,omitempty"`
+	DescLen  int               `json:"desclen,omitempty"`  // bulky transaction: desc = DescLen filler bytes
 	Coinbase bool              `json:"coinbase,omitempty"` // adversarial: coinbase flag on a submitted transaction
 	Method   string            `json:"method,omitempty"`   // with Args: call Contract.Method(Args) instead of $verif.Run(Prog)
 	Args     map[string]string `json:"args,omitempty"`
@@ -358,6 +359,14 @@ func (o OutSpec) amountBytes() []byte {
 		a = big.NewInt(0)
 	}
 	return a.Bytes()
+}
+
+// descOf renders the description of a spec (DescLen filler bytes for bulky transactions).
+func descOf(spec *TxSpec) []byte {
+	if spec.DescLen > 0 {
+		return bytes.Repeat([]byte{'x'}, spec.DescLen)
+	}
+	return []byte(spec.Desc)
 }
 
 // SignTx signs tx as its initiator (+ identical AuthRequire entry) with the deterministic signer
@@ -454,7 +463,7 @@ func BuildTx(spec *TxSpec, pre *PreExecResult) *pb.Transaction {
 		v = 3
 	}
 	tx := &pb.Transaction{Version: v, Nonce: fmt.Sprintf("n%d", spec.Seq), Timestamp: int64(spec.Seq), Initiator: k.Address,
-		AuthRequire: []string{k.Address}, Desc: []byte(spec.Desc), Coinbase: spec.Coinbase}
+		AuthRequire: []string{k.Address}, Desc: descOf(spec), Coinbase: spec.Coinbase}
 	for _, r := range spec.Ins {
 		id, _ := hex.DecodeString(r.Txid)
 		a, _ := new(big.Int).SetString(r.Amount, 10)
